@@ -41,7 +41,8 @@ NP_OF = {
     'C15': [('UtilsRelabel', ['unique', 'unique_counts', 'shift_data', 'shift_data_1d', 'rename_by_index', 'rename_by_population'])],
     'C02': [('StateTrajInit', ['init']), ('StateTrajAcc', ['states', 'nstates', 'ntrajs', 'nframes', 'index_trajs', 'index_trajs_flatten', 'trajs', 'trajs_flatten']),
             ('LumpedAcc', ['microstate_trajs', 'microstate_trajs_flatten', 'state_assignment_idx', 'trajs', 'index_trajs', 'init'])],
-    'C17': [('StateTrajInit', ['init']), ('UtilsRelabel', ['rename_by_index'])],
+    'C17': [('StateTrajInit', ['init']), ('UtilsRelabel', ['rename_by_index']),
+            ('MdCompareApi', ['compare_discretization_symmetric', 'compare_discretization_directed'])],
     'C16': [('IoLimits', ['open_limits_file', 'open_limits_none']), ('UtilsSwap', ['_asindex', 'swapcols']),
             ('IoOpen', ['opentxt_cols_1d', 'opentxt_cols_2d', 'opentxt_all_1d', 'opentxt_all_2d',
                         'opentxt_limits_1d_none', 'opentxt_limits_1d_file', 'opentxt_limits_2d_none', 'opentxt_limits_2d_file',
